@@ -15,8 +15,9 @@ Modes (field "mode" of every event):
 
 Event (one per library x partition):
   {"ev":"run","tid","mode","method","contigs":[len,..],
-   "serial":[{"q","m","f","c","p","e","t","g","s","sc"}],    g = ordinal of the serial molecule, s/sc = its cut site
-   "jobs":[{"tasks":[{"c","s","e","fs","fe"}],"recs":[{"q","m","f","c","p","t","ix"}]}],
+   "serial":[{"s","sc","recs":[{"q","m","f","c","p","e","t"}]}],   one entry per molecule of the serial pass, s/sc = its cut site
+   "plan":[[{"c","s","e","fs","fe"}]],        the job list handed to the workers (wrapper around generate_tasks)
+   "jobs":[{"tasks":[{"c","s","e","fs","fe"}],"recs":[{"q","m","f","c","p","t","ix"}]}],       the jobs that returned
    "merged":[{"q","m","f","c","p","t"}]   (api / cpp: the merged output file re-read; tasks / scn: empty = union of jobs)
    "pred":[[id,..] per bin]               (scn only: the model's prediction for the as-coded loop) , "case": generator input}
 -1 stands for None everywhere (whole-contig task, '*' contig, no site).
@@ -68,10 +69,15 @@ def frag_reads(header, contigs, method, idx, fr):
     else:       # chic: every mapped R1 has a site; a rejected fragment is one whose R1 carries the qc-fail bit
         seq1 = body
         qc1 = not fr['valid']
-    reads = [bamgen.make_read(header, name, cname, r1s, seq1, reverse=rev, paired=paired, read1=paired, proper=paired,
-                              mate_contig=cname if paired else None, mate_pos=r2s, mate_reverse=(not rev) if paired else False,
+    r2un = paired and fr.get('r2_unmapped', False)     # mate 2 unmapped, placed at mate 1's position
+    reads = [bamgen.make_read(header, name, cname, r1s, seq1, reverse=rev, paired=paired, read1=paired, proper=paired and not r2un,
+                              mate_contig=cname if paired else None, mate_pos=r1s if r2un else r2s,
+                              mate_reverse=(not rev) if paired and not r2un else False, mate_unmapped=r2un,
                               qcfail=qc1, tags=tags, dup=fr.get('dup_in', False))]
-    if paired:
+    if r2un:
+        reads.append(bamgen.make_read(header, name, cname, r1s, fill(l2, idx * 11 + 3), paired=True, read2=True, unmapped=True,
+                                      mate_contig=cname, mate_pos=r1s, mate_reverse=rev, tags=tags))
+    elif paired:
         reads.append(bamgen.make_read(header, name, cname, r2s, fill(l2, idx * 11 + 3), reverse=not rev, paired=True, read2=True,
                                       proper=True, mate_contig=cname, mate_pos=r1s, mate_reverse=rev, tags=tags))
     return reads
@@ -164,22 +170,27 @@ def iterator_args(method):
 
 
 def attach_molecules(recs, mol_log, contig_ids):
-    """copy the observed molecule ordinal and cut site onto the records of the serial output (join on name, mate)"""
+    """group the records of the serial output by the molecule the iterator yielded them in (join on name, mate) and copy
+    the observed cut site next to them: [{"s","sc","recs":[..]}]"""
     where = {}
     for g, m in enumerate(mol_log):
         for key in m['reads']:
-            where[tuple(key)] = (g, m['site'])
-    out = []
+            where[tuple(key)] = g
+    mols = []
+    for m in mol_log:
+        site = m['site']
+        d = {'s': -1, 'sc': -1, 'recs': []}
+        if site is not None and site[1] is not None and site[0] in contig_ids:
+            d['s'], d['sc'] = int(site[1]), contig_ids[site[0]]
+        mols.append(d)
+    stray = {'s': -1, 'sc': -1, 'recs': []}      # records the observer never saw in a molecule (kept, judged as their own group)
     for r in recs:
-        g, site = where.get((r['q'], r['m']), (-1, None))
-        r = dict(r, g=g, s=-1, sc=-1)
-        if site is not None and site[1] is not None:
-            r['s'] = int(site[1])
-            r['sc'] = contig_ids.get(site[0], -1)
-            if r['sc'] == -1:
-                r['s'] = -1
-        out.append(r)
-    return out
+        g = where.get((r['q'], r['m']))
+        (mols[g] if g is not None else stray)['recs'].append(r)
+    mols = [m for m in mols if m['recs']]
+    if stray['recs']:
+        mols.append(stray)
+    return mols
 
 
 @contextlib.contextmanager
@@ -269,11 +280,26 @@ def collect_jobs(obs_dir, contigs):
     return jobs
 
 
-def run_parallel(btm, call, contigs, tmp):
+def run_parallel(btm, call, contigs, tmp, order_seed=None):
+    """order_seed: the job list built by generate_tasks is permuted (seeded) before it is handed to the pool / the
+    sequential loop, i.e. the jobs complete - and are merged - in another order"""
     global _OBS_DIR, _ORIG_RTT
     _OBS_DIR = tempfile.mkdtemp(prefix='obs_', dir=tmp)
     _ORIG_RTT = btm.run_tagging_tasks
     btm.run_tagging_tasks = observed_run_tagging_tasks
+    orig_gen = btm.generate_tasks
+    plan = []
+
+    def observed_generate_tasks(*a, **kw):
+        tasks = list(orig_gen(*a, **kw))
+        if order_seed is not None:
+            random.Random(order_seed).shuffle(tasks)
+        cid = {n: i for i, (n, _) in enumerate(contigs)}
+        for _, arglist in tasks:
+            plan.append([task_rec((cid.get(t.get('contig'), -1), t.get('start'), t.get('end'), t.get('fetch_start'),
+                                   t.get('fetch_end'))) for t in arglist])
+        return tasks
+    btm.generate_tasks = observed_generate_tasks
     raised = ''
     try:
         with quiet():
@@ -282,12 +308,14 @@ def run_parallel(btm, call, contigs, tmp):
         raised = type(ex).__name__
     finally:
         btm.run_tagging_tasks = _ORIG_RTT
+        btm.generate_tasks = orig_gen
     jobs = collect_jobs(_OBS_DIR, contigs)
     shutil.rmtree(_OBS_DIR, True)
-    return jobs, raised
+    plan.sort(key=json.dumps)
+    return jobs, raised, plan
 
 
-def run_api(btm, bam, out, method, contigs, tmp, seg, job, fsize, use_pool, threads):
+def run_api(btm, bam, out, method, contigs, tmp, seg, job, fsize, use_pool, threads, order_seed=None):
     from singlecellmultiomics.molecule import MoleculeIterator
 
     def call():
@@ -295,18 +323,18 @@ def run_api(btm, bam, out, method, contigs, tmp, seg, job, fsize, use_pool, thre
                                           fragment_size=fsize, bp_per_job=job, bp_per_segment=seg, temp_folder_root=tmp,
                                           use_pool=use_pool, one_contig_per_process=False,
                                           additional_args={'consensus_mode': None}, n_threads=threads)
-    jobs, raised = run_parallel(btm, call, contigs, tmp)
+    jobs, raised, plan = run_parallel(btm, call, contigs, tmp, order_seed)
     merged = [{k: v for k, v in r.items() if k != 'e'} for r in read_bam(out)] if os.path.exists(out) and not raised else []
-    return jobs, merged, raised
+    return jobs, merged, raised, plan
 
 
 def run_cpp(btm, bam, out, method, contigs, tmp, threads):
     def call():
         btm.run_multiome_tagging_cmd([bam, '-o', out, '-method', method, '--multiprocess', '-tagthreads', str(threads),
                                       '-temp_folder', tmp])
-    jobs, raised = run_parallel(btm, call, contigs, tmp)
+    jobs, raised, plan = run_parallel(btm, call, contigs, tmp)
     merged = [{k: v for k, v in r.items() if k != 'e'} for r in read_bam(out)] if os.path.exists(out) and not raised else []
-    return jobs, merged, raised
+    return jobs, merged, raised, plan
 
 
 # ------------------------------------------------------------------------------------------------
@@ -344,7 +372,8 @@ def random_library(rng, method, big=False):
     if big:
         contigs = [('chr%d' % (i + 1), rng.choice([100000, 130000, 250000])) for i in range(nct)]
     else:
-        contigs = [('chr%d' % (i + 1), rng.choice([3, 4, 5]) * B + rng.choice([0, 0, 37, B // 2])) for i in range(nct)]
+        ragged = rng.random() < 0.3            # contig lengths that are no multiple of the grid
+        contigs = [('chr%d' % (i + 1), rng.choice([3, 4, 5]) * B + (rng.choice([0, 37, B // 2]) if ragged else 0)) for i in range(nct)]
     maxext = rng.choice([F, F, F // 2, F + 25])          # longest fragment of this library (F + 25: precondition can fail)
     frags = []
     for c, (cn, ln) in enumerate(contigs):
@@ -375,7 +404,8 @@ def random_library(rng, method, big=False):
                 l1 = e2 if single else rng.randint(min(20, e2), e2)
                 l2 = 0 if single else rng.randint(min(12, e2), e2)
                 frags.append({'c': c, 'lo': flo, 'hi': fhi, 'rev': rev, 'l1': max(l1, 10), 'l2': l2, 'valid': valid, 'umi': umi if d == 0 or rng.random() < 0.7 else 'AAC',
-                              'cell': cell, 'dup_in': rng.random() < 0.1})
+                              'cell': cell, 'dup_in': rng.random() < 0.1,
+                              'r2_unmapped': (not single) and rng.random() < 0.08})
     frags = [f for f in frags if f['l1'] <= f['hi'] - f['lo'] and f['l2'] <= f['hi'] - f['lo']]
     frags.sort(key=lambda f: (f['c'], f['lo']))
     return {'B': B, 'F': F, 'contigs': contigs, 'frags': frags, 'nun': rng.choice([0, 1, 3]), 'maxext': maxext}
@@ -432,7 +462,7 @@ def main():
                 emit(run_scenario(tagging, scn, tmp, tid))
 
         # ---- random libraries: hand-made tilings, region API, contig-per-process CLI
-        nlib, ntil, napi, npool, ncpp = (24, 6, 16, 3, 5) if tier == 'quick' else (400, 20, 150, 25, 40)
+        nlib, ntil, napi, npool, ncpp = (24, 6, 16, 3, 5) if tier == 'quick' else (250, 16, 100, 20, 32)
         for k in range(nlib):
             method = 'nla' if k % 3 != 2 else 'chic'
             lib = random_library(rng, method)
@@ -443,21 +473,24 @@ def main():
             case = {'lib': lib, 'method': method}
             for jobs in hand_tilings(rng, lib, ntil):
                 tid += 1
+                jr = run_tasks(tagging, bam, method, lib['contigs'], jobs)
                 emit({'ev': 'run', 'tid': tid, 'mode': 'tasks', 'method': method, 'contigs': clens, 'serial': ser,
-                      'jobs': run_tasks(tagging, bam, method, lib['contigs'], jobs), 'merged': [], 'raised': '',
+                      'jobs': jr, 'plan': [j['tasks'] for j in jr], 'merged': [], 'raised': '',
                       'case': dict(case, jobs=[[task_rec(t) for t in j] for j in jobs])})
             if k < napi:
-                seg = rng.choice([lib['B'], lib['B'], lib['B'] // 2 + 7, 2 * lib['B']])
+                seg = rng.choice([lib['B'], lib['B'], lib['B'], lib['B'], lib['B'] // 2 + 7, 2 * lib['B']])
                 fsize = rng.choice([lib['maxext'] + 1, lib['F'], 2 * lib['F']])
                 jobbp = rng.choice([seg, 2 * seg, 10 * seg, seg // 2])
                 use_pool = k < npool
                 threads = rng.randint(1, 8)
                 par = os.path.join(tmp, 'par%d.bam' % k)
-                jobs, merged, raised = run_api(btm, bam, par, method, lib['contigs'], tmp, seg, jobbp, fsize, use_pool, threads)
+                order = rng.randint(1, 10 ** 6)
+                jobs, merged, raised, plan = run_api(btm, bam, par, method, lib['contigs'], tmp, seg, jobbp, fsize, use_pool, threads, order)
                 tid += 1
                 emit({'ev': 'run', 'tid': tid, 'mode': 'api', 'method': method, 'contigs': clens, 'serial': ser, 'jobs': jobs,
-                      'merged': merged, 'raised': raised,
-                      'case': dict(case, api={'seg': seg, 'fsize': fsize, 'jobbp': jobbp, 'use_pool': use_pool, 'threads': threads})})
+                      'plan': plan, 'merged': merged, 'raised': raised,
+                      'case': dict(case, api={'seg': seg, 'fsize': fsize, 'jobbp': jobbp, 'use_pool': use_pool, 'threads': threads,
+                                                 'order': order})})
             for p in os.listdir(tmp):
                 if p.startswith(('lib%d.' % k, 'ser%d.' % k, 'par%d.' % k)):
                     os.remove(os.path.join(tmp, p))
@@ -468,10 +501,11 @@ def main():
             write_library(bam, lib['contigs'], method, lib['frags'], unplaced_reads(lib['nun']))
             ser = serial_cli(btm, bam, os.path.join(tmp, 'bser%d.bam' % k), method, lib['contigs'])
             threads = [1, 2, 4, 8, 3, 5, 6, 7][k % 8]
-            jobs, merged, raised = run_cpp(btm, bam, os.path.join(tmp, 'bpar%d.bam' % k), method, lib['contigs'], tmp, threads)
+            jobs, merged, raised, plan = run_cpp(btm, bam, os.path.join(tmp, 'bpar%d.bam' % k), method, lib['contigs'], tmp, threads)
             tid += 1
             emit({'ev': 'run', 'tid': tid, 'mode': 'cpp', 'method': method, 'contigs': [l for _, l in lib['contigs']], 'serial': ser,
-                  'jobs': jobs, 'merged': merged, 'raised': raised, 'case': {'lib': lib, 'method': method, 'cpp': {'threads': threads}}})
+                  'jobs': jobs, 'plan': plan, 'merged': merged, 'raised': raised,
+                  'case': {'lib': lib, 'method': method, 'cpp': {'threads': threads}}})
     shutil.rmtree(tmp, True)
 
 
@@ -484,7 +518,7 @@ def run_scenario(tagging, scn, tmp, tid):
     os.remove(bam)
     os.remove(bam + '.bai')
     ev = {'ev': 'run', 'tid': tid, 'mode': 'scn', 'method': method, 'contigs': [l for _, l in contigs], 'serial': ser, 'jobs': jr,
-          'merged': [], 'raised': '', 'case': {'scn': scn}}
+          'plan': [j['tasks'] for j in jr], 'merged': [], 'raised': '', 'case': {'scn': scn}}
     if 'pred' in scn:
         ev['pred'] = [[int(x) for x in p] for p in scn['pred']]
         # what each bin job wrote, in the model's numbering (fragment index * 4 + mate); names are f<index>
@@ -514,15 +548,17 @@ def replay_case(case_path, outp):
         if 'jobs' in case:
             un = lambda x: None if x == -1 else x
             jobs = [[(t['c'], un(t['s']), un(t['e']), un(t['fs']), un(t['fe'])) for t in j] for j in case['jobs']]
-            ev.update(mode='tasks', jobs=run_tasks(tagging, bam, method, lib['contigs'], jobs))
+            jr = run_tasks(tagging, bam, method, lib['contigs'], jobs)
+            ev.update(mode='tasks', jobs=jr, plan=[j['tasks'] for j in jr])
         elif 'api' in case:
             a = case['api']
-            jobs, merged, raised = run_api(btm, bam, os.path.join(tmp, 'par.bam'), method, lib['contigs'], tmp, a['seg'], a['jobbp'],
-                                           a['fsize'], a['use_pool'], a['threads'])
-            ev.update(mode='api', jobs=jobs, merged=merged, raised=raised)
+            jobs, merged, raised, plan = run_api(btm, bam, os.path.join(tmp, 'par.bam'), method, lib['contigs'], tmp, a['seg'],
+                                                 a['jobbp'], a['fsize'], a['use_pool'], a['threads'], a.get('order'))
+            ev.update(mode='api', jobs=jobs, merged=merged, raised=raised, plan=plan)
         else:
-            jobs, merged, raised = run_cpp(btm, bam, os.path.join(tmp, 'par.bam'), method, lib['contigs'], tmp, case['cpp']['threads'])
-            ev.update(mode='cpp', jobs=jobs, merged=merged, raised=raised)
+            jobs, merged, raised, plan = run_cpp(btm, bam, os.path.join(tmp, 'par.bam'), method, lib['contigs'], tmp,
+                                                 case['cpp']['threads'])
+            ev.update(mode='cpp', jobs=jobs, merged=merged, raised=raised, plan=plan)
     with open(outp, 'w') as f:
         f.write(json.dumps(ev, separators=(',', ':')) + '\n')
     shutil.rmtree(tmp, True)
